@@ -4,6 +4,8 @@ import (
 	"encoding/json"
 	"errors"
 	"fmt"
+	"os"
+	"runtime"
 	"strings"
 	"testing/synctest"
 	"time"
@@ -111,6 +113,10 @@ func (w *World) loop() {
 			idle++
 			if idle > 50 {
 				w.harnessFail("scheduler: nothing pending for 50 idle rounds with %d live actors", live)
+				if os.Getenv("VERIF_DEBUG") != "" {
+					buf := make([]byte, 1<<20)
+					os.Stderr.Write(buf[:runtime.Stack(buf, true)])
+				}
 				return
 			}
 			select {
@@ -141,7 +147,6 @@ func (w *World) loop() {
 }
 
 func (w *World) deliver(p *core.Pending) {
-	f := w.plan.Faults
 	switch p.Kind {
 	case "step":
 		ar := p.Data.(actorRef)
@@ -160,35 +165,9 @@ func (w *World) deliver(p *core.Pending) {
 		w.sched.Release(p, nil)
 	case "pg":
 		ev := p.Data.(*fakepg.Event)
-		d := pgDecision{v: fakepg.Exec}
-		if ownerGen(ev.Owner) >= 0 && ownerGen(ev.Owner) != w.gen {
-			d.v = fakepg.DropBefore
-		} else if w.faultsOn() && w.st.Chance(f.PGPerMille, 1000, "pg-fault") {
-			kinds := 2
-			if f.LostAck {
-				kinds = 3
-			}
-			switch w.st.Draw(kinds, "pg-kind") {
-			case 0:
-				d.v = fakepg.ErrReply
-				d.code = pgCodes[w.st.Draw(len(pgCodes), "pg-code")]
-				w.stat("fault_pg_error", 1)
-			case 1:
-				d.v = fakepg.DropBefore
-				w.stat("fault_pg_drop_before", 1)
-			case 2:
-				d.v = fakepg.DropAfter
-				w.stat("fault_pg_drop_after", 1)
-				if strings.Contains(ev.Class, "commit") {
-					w.stat("probe_lost_commit_ack", 1)
-					if ps := w.pairByOwner(ev.Owner); ps != nil {
-						ps.callLostAck = true
-					}
-				}
-			}
-			w.stat("fault_total", 1)
-			w.stat("fault_pg_at:"+pgClassShort(ev.Class), 1)
-		}
+		w.stMu.Lock()
+		d := w.decidePG(ev)
+		w.stMu.Unlock()
 		w.logf("%s -> %d%s", p.Key, d.v, d.code)
 		w.sched.Release(p, d)
 	case "http":
@@ -443,4 +422,39 @@ func (w *World) crashRestart() {
 	if err := w.startGeneration(); err != nil {
 		w.harnessFail("restart: %v", err)
 	}
+}
+
+// decidePG draws the verdict for one PG seam event.
+func (w *World) decidePG(ev *fakepg.Event) pgDecision {
+	f := w.plan.Faults
+	d := pgDecision{v: fakepg.Exec}
+	if ownerGen(ev.Owner) >= 0 && ownerGen(ev.Owner) != w.gen {
+		d.v = fakepg.DropBefore
+	} else if w.faultsOn() && w.st.Chance(f.PGPerMille, 1000, "pg-fault") {
+		kinds := 2
+		if f.LostAck {
+			kinds = 3
+		}
+		switch w.st.Draw(kinds, "pg-kind") {
+		case 0:
+			d.v = fakepg.ErrReply
+			d.code = pgCodes[w.st.Draw(len(pgCodes), "pg-code")]
+			w.stat("fault_pg_error", 1)
+		case 1:
+			d.v = fakepg.DropBefore
+			w.stat("fault_pg_drop_before", 1)
+		case 2:
+			d.v = fakepg.DropAfter
+			w.stat("fault_pg_drop_after", 1)
+			if strings.Contains(ev.Class, "commit") {
+				w.stat("probe_lost_commit_ack", 1)
+				if ps := w.pairByOwner(ev.Owner); ps != nil {
+					ps.callLostAck = true
+				}
+			}
+		}
+		w.stat("fault_total", 1)
+		w.stat("fault_pg_at:"+pgClassShort(ev.Class), 1)
+	}
+	return d
 }
